@@ -245,7 +245,9 @@ class ExtraCoords(ExtraCoordsABC):
         if not self.wcs:
             return tuple()
 
-        return tuple(self.wcs.world_axis_names) if self.wcs.world_axis_names else None
+        # The names live on the low level API, which a wrapped WCS only exposes via low_level_wcs.
+        world_axis_names = getattr(self.wcs, "low_level_wcs", self.wcs).world_axis_names
+        return tuple(world_axis_names) if world_axis_names else None
 
     @property
     def mapping(self):
